@@ -598,6 +598,10 @@ fn leader_progress(s: &mut Src, sh: &Shape, r: &mut Raft<VStore>, g: &Ghost) {
                 ProgressState::Snapshot => {
                     pr.pending_snapshot = sh.base + ps.pending_snapshot_off;
                     assert!(pr.pending_snapshot >= 1 && pr.pending_snapshot <= last, "shape: pending_snapshot");
+                    // the outstanding snapshot may be one the follower asked for
+                    if s.bool() {
+                        pr.pending_request_snapshot = pr.pending_snapshot;
+                    }
                 }
             }
         }
@@ -637,6 +641,7 @@ pub fn assert_progress_reset(r: &Raft<VStore>, sh: &Shape) {
                 assert!(p.matched == 0, "reset: acknowledgements of an earlier leadership survived the role change");
             }
             assert!(p.next_idx == last + 1 && p.ins.count() == 0 && !p.paused && p.pending_snapshot == 0);
+            assert!(p.pending_request_snapshot == 0, "reset: a snapshot request recorded by an earlier leadership survived the role change");
             assert!(p.state == ProgressState::Probe);
         }
         i += 1;
